@@ -3,7 +3,8 @@
 (* (C03), encoding/json as a second implementation, and the StdLibCompatible   *)
 (* slice/map helpers on the decoded values (C17).                              *)
 (* calls: [fn, ok, p, tree]   fn 1 ReadValue, 2 ValueReader.ReadValue (reused   *)
-(* reader), 3 ReadObject, 4 ReadArray, 5/6 the same on a reused reader.         *)
+(* reader), 3 ReadObject, 4 ReadArray, 5/6 the same on a reused reader,         *)
+(* 7/8 HandleArrayValues / HandleObjectValues with a zero ValueReader as handler *)
 (* A recorded tree <<"big">> stands for a tree too deep to log.                 *)
 EXTENDS Trees, TraceCore
 VARIABLE l
@@ -20,7 +21,16 @@ Clauses(e) ==
       ovf == ~deep /\ v.ok /\ HasOverflow(v.tree)
       fb == FirstByte(s)
       okFor(fn) == v.ok /\ ~ovf /\ (fn \in {3, 5} => fb = 123) /\ (fn \in {4, 6} => fb = 91)
+                   \* the traversal functions themselves take the literal null for an empty container (Handlers.tla)
+                   /\ (fn = 8 => fb \in {123, 110}) /\ (fn = 7 => fb \in {91, 110})
+      \* 7/8: a zero ValueReader handed directly to HandleArrayValues / HandleObjectValues (beyond the listed
+      \* properties: notes).  Only success and offset are observable; the reader's own depth accounting starts one
+      \* level later than through ReadArray / ReadObject, so documents of the depth family are not judged here.
+      Direct(c) == LET ok == okFor(c.fn) IN
+             F(ok => c.ok = 1 /\ c.p = v.end, "NOTE", "ext_valuereader_as_handler_rejects_or_wrong_offset_" \o ToString(c.fn))
+             \cup F(~ok /\ ~deep => c.ok = 0, "NOTE", "ext_valuereader_as_handler_accepts_" \o ToString(c.fn))
   IN UNION { LET c == e.calls[i]  ok == okFor(c.fn) IN
+             IF c.fn \in {7, 8} THEN Direct(c) ELSE
              F(c.ok = (IF ok THEN 1 ELSE 0), "C03", "success_" \o ToString(c.fn))
              \cup F(ok /\ c.ok = 1 => c.p = v.end, "C03", "offset_" \o ToString(c.fn))
              \cup F(ok /\ c.ok = 1 /\ c.tree # <<"big">> => TreeMatch(v.tree, c.tree, FALSE), "C03", "tree_" \o ToString(c.fn))
